@@ -267,6 +267,9 @@ def sampling_task(payload):
             vpool.install(ch, log)
             try:
                 s = OptGPSampler(m, processes=procs, thinning=2, seed=42)
+                # another parallel sampler of another model is built in between and stays alive: each sampler's workers
+                # run that sampler's chains
+                other = OptGPSampler(build_model("cycle"), processes=procs, thinning=3, seed=7)  # noqa: F841
                 df = s.sample(n)
                 df2 = s.sample(n)  # second call on the same sampler must work and stay valid
                 val = s.validate(np.vstack([df.values, df2.values]))
